@@ -362,23 +362,24 @@ def _consumer_sites(ctx: Ctx, fi: FuncInfo, opt: str, callee_q: str, depth: int 
     """Call sites of the consumer in fi, or in a helper that receives fi's `opt` unchanged under the same name."""
     prog = ctx.prog
     flow = prog.flow(fi)
-    sites = [(fi, n, c) for n, c in flow.all_calls() if call_name(prog, fi, c) == callee_q]
+    sites = [(fi, n, c, opt) for n, c in flow.all_calls() if call_name(prog, fi, c) == callee_q]
     # the consumer chosen by a conditional expression: f = A if opt else B; f(...)   /   (A if opt else B)(...)
     for n, c in flow.all_calls():
         sel = _selected_callee(prog, fi, c, n)
         if sel is not None:
             test, tnode, body_q, else_q = sel
             if callee_q in (body_q, else_q):
-                sites.append((fi, n, _Selected(c, test, tnode, "T" if callee_q == body_q else "F")))
+                sites.append((fi, n, _Selected(c, test, tnode, "T" if callee_q == body_q else "F"), opt))
     if sites or depth >= 2:
         return sites
     for n, c in flow.all_calls():
         t = prog.resolve_call(fi, c)
-        if isinstance(t, list) and not isinstance(t[0].node, ast.Lambda) and opt in t[0].params and t[0].cls is None:
-            b = bind_call(t[0], c)
-            e = b.get(opt)
-            if e is not None and origins(prog, fi, e, n) == frozenset({("param", opt)}):
-                sites += _consumer_sites(ctx, t[0], opt, callee_q, depth + 1)
+        if isinstance(t, list) and not isinstance(t[0].node, ast.Lambda) and t[0].cls is None:
+            # the helper may call the parameter something else (by_sentence for semantic): what counts is that it
+            # receives the option itself
+            for p_, e in bind_call(t[0], c).items():
+                if p_ in t[0].params and origins(prog, fi, e, n) == frozenset({("param", opt)}):
+                    sites += _consumer_sites(ctx, t[0], p_, callee_q, depth + 1)
     return sites
 
 
@@ -407,7 +408,8 @@ def check_consumers(ctx: Ctx, options: tuple[str, ...] | None = None) -> None:
             ctx.ob("R-CONSUMER", key, False, f"no call to {callee_q} reachable from {fq} with `{opt}` in scope: the option has lost its consumer",
                    where(entry, entry.node))
             continue
-        for fi, n, c in sites:
+        opt0 = opt
+        for fi, n, c, opt in sites:  # (opt: the option under the name it has in the function that holds the site)
             guards = direct_guards(prog, fi, n)
             if isinstance(c, _Selected):
                 torg = origins(prog, fi, c.test, c.tnode)
@@ -441,7 +443,7 @@ def check_consumers(ctx: Ctx, options: tuple[str, ...] | None = None) -> None:
     fm_entry = repo.func("flowmark.linewrapping.markdown_filling:fill_markdown")
     for name in ("flowmark.linewrapping.line_wrappers:line_wrap_by_sentence", "flowmark.linewrapping.line_wrappers:line_wrap_to_width"):
         callee = repo.func(name)
-        for fi, n, c in _consumer_sites(ctx, fm_entry, "semantic", name):
+        for fi, n, c, _o in _consumer_sites(ctx, fm_entry, "semantic", name):
             b = bind_call(callee, c.call if isinstance(c, _Selected) else c)
             im = b.get("is_markdown")
             ctx.ob("R-CONSUMER", f"{fi.qual} -> {name} :: is_markdown", isinstance(im, ast.Constant) and im.value is True,
